@@ -375,6 +375,23 @@ fn full_pair(a: &[u8], b: &[u8], out: &mut Local) {
             Err(p) => Err(p),
         };
         report_trace(out, "algorithms::diff_slices", &ctx, &r3);
+        // diff_slices_deadline without a deadline is the same computation
+        out.eval();
+        let mut mon4 = crate::mon::TraceMon::new(&eq, 0..a.len(), 0..b.len());
+        let r4 = crate::engine::guard(|| similar::algorithms::diff_slices_deadline(alg, &mut mon4, a, b, None));
+        let r4 = match r4 {
+            Ok(_) => {
+                mon4.finish_check();
+                Ok(mon4)
+            }
+            Err(p) => Err(p),
+        };
+        report_trace(out, "algorithms::diff_slices_deadline(None)", &ctx, &r4);
+        if let (Ok(m1), Ok(m4)) = (&r1, &r4) {
+            if m1.evs != m4.evs {
+                out.violation("entry_points_disagree", format!("{}: diff={} diff_slices_deadline(None)={}", ctx(), fmt_evs(&m1.evs), fmt_evs(&m4.evs)));
+            }
+        }
         if let (Ok(m1), Ok(m2), Ok(m3)) = (&r1, &r2, &r3) {
             out.count_n("callbacks_observed", (m1.evs.len() + m2.evs.len() + m3.evs.len()) as u64);
             if m1.evs != m2.evs || m1.evs != m3.evs {
